@@ -179,6 +179,11 @@ fn classify(sc: &Scenario, msg: &str) -> Verdict {
         match sc.body {
             // a task on the mini executor that is never woken is an async lost wakeup (C06);
             // a thread parked in a blocking operation is C05
+            Body::Chan(ref c) if c.mix != chan::Mix::Native => {
+                // sync and async handles mixed: the stuck party may be a parked thread or a task that is never woken
+                v.push(("C05".to_string(), "deadlock".to_string(), m.clone()));
+                v.push(("C06".to_string(), "deadlock".to_string(), m));
+            }
             Body::Chan(ref c) if c.asyn => v.push(("C06".to_string(), "deadlock".to_string(), m)),
             Body::Chan(_) => v.push(("C05".to_string(), "deadlock".to_string(), m)),
             Body::Bcast(ref bc) => {
